@@ -53,7 +53,7 @@ REQUIRED = dict(
              'guillot:alpha-outside', 'guillot:negative-kappa', 'guillot:reinit-judged', 'reinit:other-grid-same-n',
              'reinit:other-planet', 'reinit:planet-set', 'reinit:other-n', 'reinit:first-again', 'grid:integer-decades', 'array:index', 'array:pressure', 'array:all-equal',
              'rodgers:all-equal', 'nlayers:2', 'nlayers:100', 'grid:simple', 'grid:irregular', 'grid:narrow',
-             'via-forward-model', 'via-setter', 'clone:deepcopy', 'controls:given-as-caller-array', 'file:temp_units=kK', 'file:temp_units=mK', 'file:temp_units=deg_C'])
+             'via-forward-model', 'via-setter', 'clone:deepcopy', 'controls:given-as-caller-array', 'npoint:non-positive-pressure-node', 'file:temp_units=kK', 'file:temp_units=mK', 'file:temp_units=deg_C'])
 
 NLAYERS = list(range(2, 61)) + [100]
 
@@ -342,8 +342,13 @@ def wl_npoint(ctx, rng):
     window = int(rng.choice([0, 1, 2, 5, 10, 25, 33, 50, 99, 100])) if rng.random() < 0.6 else int(rng.integers(0, 101))
     kw['smoothing_window'] = window
     if mode == 'inverted':
-        how = rng.integers(0, 4)
-        if how == 0 and k >= 2:
+        how = rng.integers(0, 5)
+        if how == 4 and k >= 1:
+            # a node that is not a pressure at all: negative or exactly zero (a sampler stepping outside a linear prior)
+            i = int(rng.integers(0, k))
+            pp[i] = -pp[i] if rng.random() < 0.6 else 0.0
+            ctx.observe('npoint:non-positive-pressure-node')
+        elif how == 0 and k >= 2:
             i = int(rng.integers(0, k - 1))
             pp[i], pp[i + 1] = pp[i + 1], pp[i]
         elif how == 1 and k >= 1:
